@@ -100,11 +100,18 @@ def run(rep: Report, prog: Program, tier: str) -> None:
             else:
                 rep.ok("R8.2")
     rep.floor("R8.2", 12)
-    for k, n in (("allow", 2), ("record", 3), ("operation", 4), ("retry", 4)):
+    rep.rule("R8.3", "telling the breaker settles the call: every record_success / record_failure / record_cancel made in HALF_OPEN releases the probe slot or leaves HALF_OPEN with it released (= the HALF_OPEN rows of C07 R7.1) - a probe whose failure is recorded but whose slot stays taken blocks every later call for ever")
+    from .breaker_table import check_method
+
+    for m in ("record_success", "record_failure", "record_cancel"):
+        check_method(rep, "R8.3", prog, m, row_filter=lambda v: v["ST"] == "HALF_OPEN")
+    rep.floor("R8.3", 3)
+    # shared helpers merge call sites: the floors are the structural minimum (each kind of site exists), not today's count
+    for k, n in (("allow", 1), ("record", 3), ("operation", 2), ("retry", 2)):
         if len(F.client.sites[k]) < n:
             from ..model import AnalysisError
 
-            raise AnalysisError(f"C08: only {len(F.client.sites[k])} `{k}` sites found, {n} confirmed by hand")
+            raise AnalysisError(f"C08: only {len(F.client.sites[k])} `{k}` sites found, at least {n} expected")
     rep.extra["sites"] = {k: sorted(v) for k, v in F.client.sites.items()}
     rep.extra["interp_stats"] = dict(F.interp.stats)
     if tier == "thorough":
